@@ -22,6 +22,8 @@ package vault
 //vx:redirect github.com/openbao/openbao/sdk/v2/logical.ClearView vxClearView
 //vx:redirect encoding/json.Marshal vxJSONBox
 //vx:noop github.com/hashicorp/go-metrics/compat.*
+//vx:param treeSize quick=3 thorough=5
+//vx:param faults quick=1 thorough=2
 //vx:unwind 400
 
 import (
@@ -539,4 +541,43 @@ func VxCubbyholeRemovedWhereverTheTokenWrote() {
 		vxReach("cubbyhole: data in a child namespace")
 		vxAssert("the token's cubbyhole in a child namespace it was used in is removed as well", vxHas(vxClearedNS, "n1|cid-1/"))
 	}
+}
+
+// every tree shape over treeSize tokens (each descendant hangs under any earlier token), up to `faults` storage
+// failures - one per attempt, anywhere - each followed by a retry: once an attempt reports success the whole tree is
+// revoked and the unrelated token is untouched.
+func VxRevokeAnyTreeWithRetries() {
+	ctx := namespace.RootContext(context.Background())
+	ts := vxTokenStore()
+	vxW = &vxWorld{failAt: -1}
+	n := vxParam("treeSize")
+	ids := []string{"R", "A", "B", "C", "D"}[:n]
+	vxAddToken("R", "")
+	for i := 1; i < n; i++ {
+		vxAddToken(ids[i], ids[vxChoose("parent of "+ids[i], i)])
+	}
+	vxAddToken("O", "")
+	var err error
+	for attempt := 0; attempt <= vxParam("faults"); attempt++ {
+		vxW.failAt = -1
+		if attempt < vxParam("faults") {
+			fail := vxChoose("failing call of this attempt (40 = none)", 41)
+			if fail < 40 {
+				vxW.failAt = vxW.calls + fail
+			}
+		}
+		err = ts.revokeTreeInternal(ctx, "s-R")
+		if err == nil {
+			break
+		}
+		vxReach("any tree: an attempt failed")
+	}
+	vxW.failAt = -1
+	vxAssert("with storage healthy again the revocation succeeds", err == nil)
+	vxReach("any tree: reported successful")
+	for _, id := range ids {
+		vxRevokedFully(id, "any tree")
+	}
+	o := vxFindTok("s-O")
+	vxAssert("any tree: unrelated token untouched", o >= 0 && vxW.tokens[o].NumUses == 0 && vxHas(vxW.accIdx, "s-acc-O"))
 }
